@@ -69,4 +69,31 @@ func init() {
 		},
 		Outside: []string{"NaN lags", "more than 4 candidates", "negative lag bound"},
 	})
+	fleetAssume := []string{
+		"fake MySQL fleet at the query-funnel level (DESIGN §3.1): statements take effect as their SQL text in queries.go says; every exported *mysql.Node method runs for real on top",
+		"fake coordination store at the dcs.DCS interface (DESIGN §3.2a), typed values, JSON encode/decode assumed lossless; the real appDCS/app_dcs.go/mysql.Cluster run on top",
+		"zerolog calls are empty stubs; RunParallel/getNodeStatesInParallel run their closures sequentially in argument order",
+	}
+	fleetIntercepted := []string{"(*mysql.Node).queryRowWithTimeout", "(*mysql.Node).execWithTimeout", "(*mysql.Node).execMogrifyWithTimeout", "(*mysql.Node).queryRowMogrifyWithTimeout",
+		"(*mysql.Node).SetReadOnlyWithForce (collapsed to one forced attempt through the real setReadonlyWithTimeout)", "(*mysql.Node).GetBinlogs", "(*mysql.Node).ReenableEvents",
+		"(*mysql.Node).IsWaitingSemiSyncAck", "(*mysql.Node).GetStartupTime", "(*mysql.Node).GetDiskUsage", "(*mysql.Node).IsFileSystemReadonly", "util.RunParallel", "app.getNodeStatesInParallel",
+		"(*app.App).logTiming", "(*app.App).getLocalDaemonState", "dcs.DCS (zkDCS) → fake store", "time.Now/Since/Sleep → symbolic clock", "os.WriteFile/Stat/Remove → fake files"}
+	reg(&property{
+		ID: "C18",
+		Obligations: []obligation{
+			{Pkg: "app", Entry: "H_C18_usage", Witnesses: []string{"C18.usage"}, Solver: "cvc5"},
+			{Pkg: "app", Entry: "H_C18_decision", Witnesses: []string{"C18.ro", "C18.rw", "C18.untouched"},
+				Quick: tierCfg{Params: map[string]int{"max_replicas": 2, "faults": 0}}},
+			{Pkg: "app", Entry: "H_C18_decision_faults", Witnesses: []string{"C18.faulted"},
+				Quick: tierCfg{Params: map[string]int{"max_replicas": 1, "faults": 1}}, Thorough: tierCfg{Params: map[string]int{"max_replicas": 3, "faults": 1}}},
+		},
+		Encoded: []string{"(*app.App).repairReadOnlyOnMaster", "(app/node_state.DiskState).Usage", "(*mysql.Node).SetWritable", "(*mysql.Node).setReadonlyWithTimeout", "(*app.appDCS).SetLowSpace"},
+		Assumptions: append([]string{
+			"thresholds are arbitrary non-NaN floats with not_critical <= critical (Config.Validate); per-host usage is an arbitrary non-NaN float — the contract of DiskState.Usage, itself decided over all uint64 pairs by H_C18_usage (assume/guarantee)",
+			"reading decision: a missing master disk report makes the master-usage conjunct vacuous (the code deliberately wishes the master writable before reports arrive)",
+			"the manager's view of the master satisfies super_read_only ⇒ read_only",
+		}, fleetAssume...),
+		Intercepted: append([]string{"(node_state.DiskState).Usage in the decision harness (replaced by its verified contract)"}, fleetIntercepted...),
+		Outside:     []string{"more than 3 replicas", "more than one failing call"},
+	})
 }
